@@ -10,6 +10,7 @@ import (
 	"net/http/httptest"
 	"net/url"
 	"runtime"
+	"strconv"
 	"strings"
 	"sync"
 	"sync/atomic"
@@ -41,6 +42,8 @@ func goErrorFor(name string) error {
 		return fmt.Errorf("outer: %w", fmt.Errorf("inner: %w", context.Canceled))
 	case name == "opaque":
 		return errors.New("connection reset by peer")
+	case name == "closedpipe":
+		return io.ErrClosedPipe
 	case name == "eof":
 		return io.EOF
 	case name == "ueof":
@@ -126,6 +129,128 @@ func cflowOp(c *Ctx, op string) {
 		c.Fail("cancel-bad-error", op, ans, "operation failed with the zero code, an uncoded error or a panic")
 	}
 	c.Count("cflow:" + a["point"][:2])
+	c.Emit(op, ans, true)
+}
+
+// watchedBody blocks at the end of its data until released, then fails with err: the point at
+// which a real transport would be stuck while the call's context ends.
+type watchedBody struct {
+	data    []byte
+	err     error
+	blocked chan struct{}
+	release chan struct{}
+	once    sync.Once
+}
+
+func (f *watchedBody) Read(p []byte) (int, error) {
+	if len(f.data) == 0 {
+		f.once.Do(func() { close(f.blocked) })
+		<-f.release
+		return 0, f.err
+	}
+	n := copy(p, f.data)
+	f.data = f.data[n:]
+	return n, nil
+}
+func (f *watchedBody) Close() error { return nil }
+
+// watchClient reports when the library closed the request body under the "transport".
+type watchClient struct {
+	bodyClient
+	pipeClosed chan struct{}
+}
+
+func (b *watchClient) Do(req *http.Request) (*http.Response, error) {
+	go func() {
+		_, _ = io.Copy(io.Discard, req.Body)
+		close(b.pipeClosed)
+	}()
+	return &http.Response{StatusCode: b.status, Status: strconv.Itoa(b.status), Proto: "HTTP/2.0", ProtoMajor: 2, Header: b.header, Body: b.body, Request: req}, nil
+}
+
+// cwatchOp (fix F7): the context ends while Receive is blocked in the body read and the request
+// side is open; the library must close the request body itself (the transport cannot see the
+// context), and whatever error the body read then returns, Receive reports the context's code.
+//
+//	cwatch proto=P point=prefix:N|payload:N err=E ctx=canceled|deadline -> first=C second=C | norelease
+func cwatchOp(c *Ctx, op string) {
+	a := kvArgs(strings.Fields(op))
+	proto := a["proto"]
+	ans := safely(func() string {
+		e := goErrorFor(a["err"])
+		parts := strings.Split(a["point"], ":")
+		n := atoi(parts[1])
+		body := frame(0, []byte{1})
+		if parts[0] == "prefix" {
+			body = append(body, envPrefix(0, 10)[:n]...)
+		} else {
+			body = append(body, envPrefix(0, 10)...)
+			body = append(body, bytes.Repeat([]byte{7}, n)...)
+		}
+		wb := &watchedBody{data: body, err: e, blocked: make(chan struct{}), release: make(chan struct{})}
+		hc := &watchClient{bodyClient: bodyClient{status: 200, header: http.Header{"Content-Type": {ctFor(proto, "bidi", "raw")}}, body: wb}, pipeClosed: make(chan struct{})}
+		cl := connect.NewClient[[]byte, []byte](hc, "http://h/s/m", protoOpts(proto)...)
+		ctx, cancel := context.WithCancel(context.Background())
+		if a["ctx"] == "deadline" {
+			ctx, cancel = context.WithTimeout(context.Background(), 40*time.Millisecond)
+		}
+		defer cancel()
+		conn := cl.CallBidiStream(ctx)
+		if err := conn.Send(&[]byte{}); err != nil {
+			return "send: " + codeName(err)
+		}
+		if _, err := conn.Receive(); err != nil {
+			return "first receive: " + codeName(err)
+		}
+		type res struct{ err error }
+		done := make(chan res, 1)
+		go func() { _, err := conn.Receive(); done <- res{err} }()
+		select {
+		case <-wb.blocked:
+		case r := <-done:
+			close(wb.release)
+			return "not blocked: " + codeName(r.err) // the context ended before the read began: nothing to decide
+		case <-time.After(5 * time.Second):
+			close(wb.release)
+			return "body never read"
+		}
+		if a["ctx"] != "deadline" {
+			cancel()
+		}
+		released := true
+		select {
+		case <-hc.pipeClosed:
+		case <-time.After(3 * time.Second):
+			released = false // the library left the transport stuck (F7)
+		}
+		close(wb.release)
+		r := <-done
+		_, err2 := conn.Receive()
+		_ = conn.CloseRequest()
+		_ = conn.CloseResponse()
+		if !released {
+			return "norelease"
+		}
+		var ce, ce2 *connect.Error
+		if !errors.As(r.err, &ce) || !errors.As(err2, &ce2) {
+			return fmt.Sprintf("uncoded %v / %v", r.err, err2)
+		}
+		return fmt.Sprintf("first=%d second=%d", ce.Code(), ce2.Code())
+	})
+	want := 1
+	if a["ctx"] == "deadline" {
+		want = 4
+	}
+	switch {
+	case strings.HasPrefix(ans, "not blocked"):
+		c.Count("cwatch:not-blocked")
+		return
+	case ans == "norelease":
+		c.Fail("cancel-request-open-stuck", op, ans, "the context ended while Receive was blocked with the request side open, and the library did not release the transport (request body not closed within 3 s)")
+	case ans != fmt.Sprintf("first=%d second=%d", want, want):
+		c.Fail("cancel-code-flow", op, ans, fmt.Sprintf("the context ended during a blocked Receive: this and every later operation must report code %d", want))
+	}
+	c.Count("cwatch:" + a["point"][:2])
 	c.Emit(op, ans, true)
 }
 
@@ -219,6 +344,10 @@ func streamCancel(c *Ctx) {
 		cflowOp(c, replayOp)
 		return
 	}
+	if replayOp != "" && strings.HasPrefix(replayOp, "cwatch") {
+		cwatchOp(c, replayOp)
+		return
+	}
 	// deterministic error-code flow through real clients (model-compared)
 	rsts := []string{"NO_ERROR", "CANCEL", "REFUSED_STREAM", "ENHANCE_YOUR_CALM", "INADEQUATE_SECURITY", "PROTOCOL_ERROR", "HTTP_1_1_REQUIRED", "STREAM_CLOSED"}
 	for _, proto := range []string{"connect", "grpc", "grpcweb"} {
@@ -234,6 +363,15 @@ func streamCancel(c *Ctx) {
 					continue
 				}
 				cflowOp(c, fmt.Sprintf("cflow proto=%s point=%s err=%s", proto, p, e))
+			}
+		}
+	}
+	for _, proto := range []string{"connect", "grpc", "grpcweb"} {
+		for _, e := range []string{"opaque", "ueof", "canceled", "url-deadline", "rst:CANCEL", "rst:NO_ERROR", "closedpipe"} {
+			for _, p := range []string{"prefix:0", "prefix:2", "payload:0", "payload:4"} {
+				for _, k := range []string{"canceled", "deadline"} {
+					cwatchOp(c, fmt.Sprintf("cwatch proto=%s point=%s err=%s ctx=%s", proto, p, e, k))
+				}
 			}
 		}
 	}
@@ -324,6 +462,9 @@ func streamCancel(c *Ctx) {
 					h := connect.NewUnaryHandler("/s/m", func(ctx context.Context, r *connect.Request[[]byte]) (*connect.Response[[]byte], error) {
 						select {
 						case <-ctx.Done():
+							// the deadline also travels to the handler: answering "ok" here would
+							// race with the client's own timer
+							return nil, ctx.Err()
 						case <-time.After(2 * time.Second):
 						}
 						return connect.NewResponse(&[]byte{1}), nil
@@ -333,6 +474,7 @@ func streamCancel(c *Ctx) {
 						hh = connect.NewServerStreamHandler("/s/m", func(ctx context.Context, r *connect.Request[[]byte], s *connect.ServerStream[[]byte]) error {
 							select {
 							case <-ctx.Done():
+								return ctx.Err()
 							case <-time.After(2 * time.Second):
 							}
 							return nil
@@ -363,13 +505,21 @@ func streamCancel(c *Ctx) {
 			for _, deadline := range []bool{false, true} {
 				deadline := deadline
 				scs = append(scs, scenario{"cancel-blocked-receive", fmt.Sprintf("context ends (deadline=%v) while Receive is blocked, %s", deadline, tag), func() (string, bool) {
+					// the handler outlives the client's context: whatever ends the blocked Receive is
+					// the client's own context, not a status the handler managed to send first (the
+					// deadline also travels to the handler, and under load its timer can win)
+					release := make(chan struct{})
 					h := connect.NewServerStreamHandler("/s/m", func(ctx context.Context, r *connect.Request[[]byte], s *connect.ServerStream[[]byte]) error {
 						_ = s.Send(&[]byte{1})
-						<-ctx.Done()
-						return ctx.Err()
+						select {
+						case <-release:
+						case <-time.After(10 * time.Second):
+						}
+						return nil
 					}, connect.WithCodec(rawCodec{"raw"}))
 					srv := startServer(h, h2)
 					defer srv.Close()
+					defer close(release)
 					cl := connect.NewClient[[]byte, []byte](srv.Client(), srv.URL+"/s/m", protoOpts(proto)...)
 					ctx, cancel := context.WithCancel(context.Background())
 					want := "canceled"
@@ -407,6 +557,61 @@ func streamCancel(c *Ctx) {
 					return codeName(v), codeName(v) == "canceled"
 				}})
 			}
+		}
+		// K7 (F7): bidi call, response started, request side still open: the context ends while
+		// Receive is blocked reading the response body and the transport waits for request data
+		for _, deadline := range []bool{false, true} {
+			deadline := deadline
+			scs = append(scs, scenario{"cancel-bidi-request-open", fmt.Sprintf("context ends (deadline=%v) while Receive is blocked and the request side is open, %s h2=true", deadline, proto), func() (string, bool) {
+				release := make(chan struct{})
+				h := connect.NewBidiStreamHandler("/s/m", func(ctx context.Context, s *connect.BidiStream[[]byte, []byte]) error {
+					if _, err := s.Receive(); err != nil {
+						return err
+					}
+					if err := s.Send(&[]byte{1}); err != nil {
+						return err
+					}
+					select {
+					case <-release:
+					case <-time.After(10 * time.Second):
+					}
+					return nil
+				}, connect.WithCodec(rawCodec{"raw"}))
+				srv := startServer(h, true)
+				defer srv.Close()
+				defer close(release)
+				cl := connect.NewClient[[]byte, []byte](srv.Client(), srv.URL+"/s/m", protoOpts(proto)...)
+				ctx, cancel := context.WithCancel(context.Background())
+				want := "canceled"
+				if deadline {
+					ctx, cancel = context.WithTimeout(context.Background(), 250*time.Millisecond)
+					want = "deadline_exceeded"
+				}
+				defer cancel()
+				s := cl.CallBidiStream(ctx)
+				if err := s.Send(&[]byte{1}); err != nil {
+					return "send: " + codeName(err), false
+				}
+				if _, err := s.Receive(); err != nil {
+					return "first receive: " + codeName(err), false
+				}
+				if !deadline {
+					time.AfterFunc(100*time.Millisecond, cancel)
+				}
+				done := make(chan error, 1)
+				go func() { _, err := s.Receive(); done <- err }()
+				select {
+				case err := <-done:
+					send := codeName(s.Send(&[]byte{2}))
+					_ = s.CloseRequest()
+					_ = s.CloseResponse()
+					got := "receive=" + codeName(err) + " send-after=" + send
+					return got, codeName(err) == want && (send == want || strings.HasSuffix(send, "+eof"))
+				case <-time.After(4 * time.Second):
+					_ = s.CloseRequest() // lets the transport and the blocked Receive go
+					return "Receive still blocked 4s after the context ended", false
+				}
+			}})
 		}
 		// K6: the context ends between the prefix write and the payload write of one Send
 		scs = append(scs, scenario{"cancel-mid-send", "context cancelled between the two writes of one Send, " + proto, func() (string, bool) {
@@ -688,6 +893,65 @@ func streamLife(c *Ctx) {
 				_ = s.CloseResponse()
 				got := strings.Join(results, ",") + " send-after=" + codeName(sendErr)
 				return got, ok && failedAt == 1
+			}})
+		}
+		// L3b: a Receive that fails locally returns, so that the program can go on and close its
+		// side, while the handler is still waiting for the client (F12: the gRPC client drains the
+		// response body to reach the HTTP trailers and blocks until the handler ends)
+		for _, variant := range []string{"oversize", "undecodable"} {
+			variant := variant
+			key := "life-receive-error-returns"
+			if proto == "grpc" {
+				key = "life-grpc-receive-error-drains" // known finding F12; any other protocol failing here is new
+			}
+			scs = append(scs, scenario{key, fmt.Sprintf("Receive of a rejected message (%s) while the handler waits for the client, %s", variant, proto), func() (string, bool) {
+				h := connect.NewBidiStreamHandler("/s/m", func(ctx context.Context, s *connect.BidiStream[[]byte, []byte]) error {
+					if _, err := s.Receive(); err != nil {
+						return err
+					}
+					bad := bytes.Repeat([]byte{1}, 1000)
+					if variant == "undecodable" {
+						bad = []byte{0xEE, 1, 2}
+					}
+					if err := s.Send(&bad); err != nil {
+						return err
+					}
+					for {
+						if _, err := s.Receive(); err != nil {
+							return nil
+						}
+					}
+				}, connect.WithCodec(rawCodec{"raw"}))
+				srv := startServer(h, true)
+				defer srv.Close()
+				cl := connect.NewClient[[]byte, []byte](srv.Client(), srv.URL+"/s/m", append(protoOpts(proto), connect.WithReadMaxBytes(100))...)
+				s := cl.CallBidiStream(context.Background())
+				if err := s.Send(&[]byte{1}); err != nil {
+					return "send: " + err.Error(), false
+				}
+				done := make(chan error, 1)
+				go func() { _, err := s.Receive(); done <- err }()
+				var got string
+				ok := true
+				select {
+				case err := <-done:
+					got = "receive=" + codeName(err)
+					ok = codeName(err) == "invalid_argument"
+				case <-time.After(1500 * time.Millisecond):
+					got = "Receive still blocked after 1.5s"
+					ok = false
+				}
+				_ = s.CloseRequest()
+				if !ok {
+					select {
+					case err := <-done:
+						got += "; returned after CloseRequest: " + codeName(err)
+					case <-time.After(3 * time.Second):
+						got += "; still blocked after CloseRequest"
+					}
+				}
+				_ = s.CloseResponse()
+				return got, ok
 			}})
 		}
 		// L4: a complete call leaves no library goroutine behind and the handler saw end-of-request
